@@ -824,7 +824,43 @@ func WFaultAt(at int, kind string) world.WriteFault { return world.WriteFault{At
 
 // ---- C20: gauges ---------------------------------------------------------------------------
 
+// genC20many: hundreds of sessions waiting on one connection, most of them abandoned when the
+// connection closes, is reset, idles out or the server is stopped; every one was counted.
+func genC20many(r *Rand, p *Plan, tier string) {
+	p.Family = "gauges-many-open"
+	p.Scen.Server = "probe"
+	key := r.key()
+	cs := ClientSpec{Addr: clientAddr(0), Key: key, SrvKey: key}
+	n := PickOf(r, 255, 257, 270, 300, 520)
+	typ := uint8(1 + r.Intn(3))
+	kind := PickOf(r, requestKinds(typ)...)
+	for i := 0; i < n; i++ {
+		cs.Ops = append(cs.Ops, Op{Kind: "send", Pkt: &PktSpec{Ver: 0xc0, Type: typ, Seq: 1, Session: uint32(7000 + i), Body: GenBody(r, kind, false)}})
+		cs.Handler = append(cs.Handler, HStep{Reply: smallReply(r, typ), Next: 1})
+	}
+	// a few of them are completed, early and late ones
+	for k := 0; k < r.Intn(4); k++ {
+		i := r.Intn(n)
+		if r.Bool() {
+			i = r.Intn(8)
+		}
+		cs.Ops = append(cs.Ops, Op{Kind: "send", Pkt: &PktSpec{Ver: 0xc0, Type: typ, Seq: 3, Session: uint32(7000 + i), Body: GenBody(r, kind, false)}})
+		cs.Handler = append(cs.Handler, HStep{Reply: smallReply(r, typ)})
+	}
+	cs.Ops = append(cs.Ops, Op{Kind: PickOf(r, "close", "reset", "idle", "close")})
+	p.Scen.Clients = []ClientSpec{cs}
+	if r.Chance(30) {
+		p.Scen.Ctl = append(p.Scen.Ctl, Ctl{Kind: "cancel", NotBefore: 5 + r.Intn(60)})
+	}
+	p.Tape = r.Tape(1500)
+	p.MaxSteps = 12000
+}
+
 func genC20(r *Rand, p *Plan, tier string) {
+	if r.Chance(3) {
+		genC20many(r, p, tier)
+		return
+	}
 	p.Family = "gauges"
 	p.Scen.Server = "probe"
 	n := 1 + r.Intn(up(5))
